@@ -239,7 +239,8 @@ fn main() {
                     true,
                 ),
                 "resync1" | "resync2" => scenario_resync(if name == "resync1" { 1 } else { 2 }, [v[0] as u8, v[1] as u8, v[2] as u8, v[3] as u8], v[4] as u8, [v[5] as u8, v[6] as u8, v[7] as u8], true),
-                "pairing1" | "pairing2" => scenario_pairing(if name == "pairing1" { 1 } else { 2 }, v[0] as u8, v[1] as u8, true),
+                "injective1" | "injective2" => scenario_injective(if name == "injective1" { 1 } else { 2 }, v[0] as u8, v[1] as u8, v[2] as u8, v[3] as u8, v[4] as u8, true),
+                "pairing1" | "pairing2" => scenario_pairing_after(if name == "pairing1" { 1 } else { 2 }, v[0] as u8, v[1] as u8, v[2] as u8, true),
                 "keyboard1" | "keyboard2" => scenario_keyboard(if name == "keyboard1" { 1 } else { 2 }, v[0] as u16, v[1] as u8, [v[2] as u8, v[3] as u8], v[4] as u8, v[5] as u8, v[6] as u16, v[7] as u8, true),
                 "layout_total" => scenario_layout_total(v[0] as u8, v[1] as u8, v[2] as u8, v[3] as u16, v[4] != 0, true),
                 _ => panic!("unknown scenario"),
